@@ -24,7 +24,9 @@ import (
 	"io"
 	"net"
 	"os"
+	"os/signal"
 	"sort"
+	"syscall"
 	"time"
 
 	pt "gitlab.torproject.org/tpo/anti-censorship/pluggable-transports/goptlib"
@@ -48,6 +50,10 @@ type request struct {
 	Args map[string]string `json:"args"`
 	Seed uint64            `json:"seed"`
 	Ops  []ticketOp        `json:"ops"`
+	// FsizeLimit, when set, makes every write(2) to a regular file fail (EFBIG) or come up
+	// short beyond that many bytes per file: RLIMIT_FSIZE with SIGXFSZ ignored — the I/O-fault
+	// family of the check (disk full / quota).
+	FsizeLimit *uint64 `json:"fsize_limit,omitempty"`
 }
 
 type reply struct {
@@ -95,6 +101,13 @@ func main() {
 	}
 	if err := transports.Init(); err != nil {
 		out(reply{Err: "init: " + err.Error()})
+	}
+	if req.FsizeLimit != nil {
+		signal.Ignore(syscall.SIGXFSZ)
+		lim := syscall.Rlimit{Cur: *req.FsizeLimit, Max: *req.FsizeLimit}
+		if err := syscall.Setrlimit(syscall.RLIMIT_FSIZE, &lim); err != nil {
+			out(reply{Err: "setrlimit: " + err.Error()})
+		}
 	}
 	switch req.Cmd {
 	case "server":
